@@ -67,7 +67,15 @@ def check_config(ctx, cfg):
         feats = cfg["feats"]
         for (dw, g) in cfg["pairs"]:
             for aw in cfg["aws"]:
-                s = wishbone.Signature(addr_width=aw, data_width=dw, granularity=g, features=feats)
+                # `features` is documented as an iterable of Feature: the same set in every legal spelling gives the same signature
+                spellings = [list(feats), set(feats), frozenset(feats), tuple(feats), (f for f in feats),
+                             {wishbone.Feature(f) for f in feats}, frozenset(wishbone.Feature(f) for f in feats),
+                             [wishbone.Feature(f) if n % 2 else f for n, f in enumerate(feats)]]
+                sigs_ = [wishbone.Signature(addr_width=aw, data_width=dw, granularity=g, features=sp) for sp in spellings]
+                s = sigs_[(aw + dw + len(feats)) % len(sigs_)]
+                for n_, t_ in enumerate(sigs_):
+                    if not (t_ == sigs_[0] and sigs_[0] == t_ and flat(t_) == flat(sigs_[0]) and t_.features == sigs_[0].features):
+                        bad["members_follow"].append(("spelling of features changes the signature", n_, feats))
                 exp = [("adr", "Out", aw), ("dat_w", "Out", dw), ("dat_r", "In", dw), ("sel", "Out", dw // g), ("cyc", "Out", 1),
                        ("stb", "Out", 1), ("we", "Out", 1), ("ack", "In", 1)]
                 exp += [(f, "In", 1) for f in ("err", "rty", "stall") if f in feats]
